@@ -7,8 +7,16 @@ From VerifGen Require Import SyncSkel.
 Import ListNotations.
 Open Scope N_scope.
 
+(* Capacities of the struct-field channels.  Every configuration below has at most two submitters
+   of each kind and every message in such a channel is caused by one submission (processBlockCh: the
+   submitted block; rollbackCh: one per verification message; newEpochCh: one per saved block, and a
+   block is saved once), so never more than two messages are in flight in the node; the loops of the
+   skeleton, being free choices, would otherwise invent unboundedly many.  Capacities above 2 are
+   therefore cut to 2 (a smaller capacity in the source still shows). *)
+Definition eff_caps : list N := map (N.min 2) gchan_caps.
+
 Definition mk (ps : list (list instr * bool)) : sys :=
-  {| procs := map fst ps; clients := map snd ps; nlocks := n_locks; gcaps := gchan_caps; mcaps := mchan_caps |}.
+  {| procs := map fst ps; clients := map snd ps; nlocks := n_locks; gcaps := eff_caps; mcaps := mchan_caps |}.
 
 (* System A (DESIGN.md/C37): the chain's block processor, casper's cached-vote loop, two
    verification-message submitters, two block submitters and a reader of the query API.
